@@ -13,7 +13,7 @@ lines.append("Two catalogues, both run by `tools/sensitivity.py mutants [PID ...
              "`VERIF_REPO=<scratch> ./check <PID> quick`, exit 1 with a VIOLATION line expected; outcome of the last run in "
              "`mutants/RESULTS.json`):\n")
 lines.append("* `mutants/<ID>/*.diff` - hand-written while building each check (equivalent mutants were deleted, see section 6).")
-lines.append("* `seeded/<ID>[b-p]/` (16 rounds) - written by independent sub-agents that were given only the property text and a scratch git "
+lines.append("* `seeded/<ID>[b-q]/` (17 rounds) - written by independent sub-agents that were given only the property text and a scratch git "
              "worktree (nothing from /verif) and asked for a change that needs something specific to manifest; every one was "
              "re-verified by `tools/import_seed.py` (repository suite still 146 passed with the change; the agent's `demo.py` exits 1 "
              "with it and 0 without) before it was kept.  `meta.json` records what it needs to manifest, what was run, and - when "
